@@ -118,7 +118,7 @@ def r20_1(repo: Repo) -> RuleResult:
 
 def r20_2(repo: Repo) -> RuleResult:
     """One histogram row per sequence, computed from that sequence and the fitted bins."""
-    rr = RuleResult("R20.2", "HistogramVectorizer.transform fills row i from sequence i with the fitted bins", floor=2)
+    rr = RuleResult("R20.2", "HistogramVectorizer.transform fills row i from sequence i with the fitted bins", floor=3)
     c = repo.module(VEC).classes.get("HistogramVectorizer")
     if c is None:
         raise AnalysisError("R20.2: HistogramVectorizer not found")
@@ -135,9 +135,27 @@ def r20_2(repo: Repo) -> RuleResult:
     (rr.ok if ok else rr.bad)(tr, "row loop", "result[%s] = self._vector_transform(%s) for every (i, seq) of X" % (i, seq) if ok else
                               "row %s of the result is not computed from sequence %s of the input alone" % (i, seq), loops[0].lineno)
     cuts = [x for x in walk_no_nested(vt.node) if isinstance(x, ast.Call) and norm(x.func).endswith("cut")]
-    ok2 = len(cuts) == 1 and len(cuts[0].args) >= 2 and norm(cuts[0].args[0]) == vt.params[1] and is_self_attr(cuts[0].args[1], "bin_intervals_")
+    ok2 = len(cuts) == 1 and len(cuts[0].args) >= 2 and {n.id for n in ast.walk(cuts[0].args[0]) if isinstance(n, ast.Name)} - {"np", "numpy", "pd"} == {vt.params[1]} \
+        and is_self_attr(cuts[0].args[1], "bin_intervals_")
     (rr.ok if ok2 else rr.bad)(vt, "binning", "pd.cut(<the sequence>, self.bin_intervals_)" if ok2 else
                                "the sequence is not cut with the fitted bin_intervals_", vt.node.lineno)
+    # counting: either the categorical's own value_counts(), or its integer codes - but then the code -1 that pd.cut
+    # gives to a value outside every bin must be filtered out before the codes are used as positions
+    codes = [x for x in walk_no_nested(vt.node) if isinstance(x, ast.Attribute) and x.attr == "codes"]
+    if codes:
+        txt = " ".join(norm(x) for x in walk_no_nested(vt.node) if isinstance(x, ast.Compare))
+        filtered = any(isinstance(x, ast.Compare) and len(x.ops) == 1 and (
+            (isinstance(x.ops[0], (ast.GtE,)) and norm(x.comparators[0]) == "0") or (isinstance(x.ops[0], ast.Gt) and norm(x.comparators[0]) == "-1")
+            or (isinstance(x.ops[0], ast.NotEq) and norm(x.comparators[0]) == "-1")) for x in walk_no_nested(vt.node))
+        if filtered:
+            rr.ok(vt, "counting", "bin codes used as positions after the out-of-range code -1 is filtered out", vt.node.lineno)
+        else:
+            rr.bad(vt, "counting", "the bin codes of pd.cut are used as positions without removing the code -1 of values that fall in no bin: "
+                   "position -1 is the last bin, so out-of-range values are counted there instead of being dropped", vt.node.lineno)
+    else:
+        vc = [x for x in walk_no_nested(vt.node) if isinstance(x, ast.Call) and isinstance(x.func, ast.Attribute) and x.func.attr == "value_counts"]
+        (rr.ok if vc else rr.bad)(vt, "counting", "value_counts() of the categorical (values in no bin are not counted)" if vc else
+                                  "the cut result is not counted by value_counts() nor through its codes: unrecognised", vt.node.lineno)
     return rr
 
 
@@ -176,7 +194,7 @@ CLAIM = (
     "bookkeeping clauses only: R20.1 add_outier_bins adds (range.low, first.left] in front and (last.right, range.high] at the end, "
     "expand_boundaries widens the outer bins to (range.low, first.right] and (last.left, range.high], each exactly under the test "
     "that the learned bins stop short of that limit; R20.2 HistogramVectorizer.transform fills row i from sequence i, cut with "
-    "the fitted bins; R20.3 KDEVectorizer.transform builds its KernelDensity with the fitted bandwidth, fits it inside the row loop "
+    "the fitted bins and counted by value_counts() (or through the bin codes with the no-bin code -1 filtered out); R20.3 KDEVectorizer.transform builds its KernelDensity with the fitted bandwidth, fits it inside the row loop "
     "on the row's sample alone, evaluates it on the fitted grid and stores it in that row."
 )
 NOT_DECIDED = (
